@@ -595,3 +595,18 @@ Proof.
   eexists. eexists. split; [vm_compute; reflexivity|]. split; [reflexivity|].
   do 45 right. left. reflexivity.
 Qed.
+
+(* ---- observation: a multi-component sub-tree name under the macro recursion callback ------ *)
+(* { "a/b/" -> { "x" } } with C04's tree model (rRecurCb: SNIP strips ONE component): the walk
+   reports ([0;0], "/a/b/x"); its dispatch reaches the sub-tree port only - the inner table
+   receives "b/x" - no leaf callback, matches = 0.  This is the shape the side conditions
+   of C09_dispatchable exclude (sub-tree ports of one component); names_ok says false. *)
+Definition ex_multi : list sport :=
+  [SPort [NameModel.Lit [97; 47; 98; 47]] [] None (Some [SPort [NameModel.Lit [120]] [] None None])].
+
+Example multicomponent_macro_refuted :
+  walk None (map render_port ex_multi) [] = WOk [([0%nat; 0%nat], [47; 97; 47; 98; 47; 120])] [47] /\
+  (let d := dispatch (to_tree no_hash_search one_id ex_multi) [47; 97; 47; 98; 47; 120] [] true 0 in
+   matches d = 0 /\ leaf_count (log d) = 0 /\ length (log d) = 1%nat) /\
+  names_ok ex_multi = false.
+Proof. split; [vm_compute; reflexivity|]. split; [|vm_compute; reflexivity]. vm_compute. repeat split; reflexivity. Qed.
